@@ -97,4 +97,45 @@ theorem reposition_valid (m : CMod) (s : St) (t : Int) (hv : Valid m t)
   unfold entered repoEndPoint updateFromOrdInfo
   by_cases hl : m.lpReset = true <;> simp [hl]
 
+/-- `check_end_of_module` only touches the loop counter and `end_point`. -/
+theorem checkEnd_fields (m : CMod) (s : St) :
+    (checkEnd m s).ord = s.ord ∧ (checkEnd m s).pos = s.pos ∧ (checkEnd m s).row = s.row ∧
+    (checkEnd m s).frame = s.frame ∧ (checkEnd m s).sequence = s.sequence ∧
+    (checkEnd m s).speed = s.speed ∧ (checkEnd m s).bpm = s.bpm ∧ (checkEnd m s).gvol = s.gvol ∧
+    (checkEnd m s).time = s.time ∧ (checkEnd m s).playing = s.playing ∧
+    (checkEnd m s).f.numRows = s.f.numRows := by
+  unfold checkEnd
+  by_cases h1 : s.ord = (m.seqAt s.sequence).scanOrd ∧ s.row = (m.seqAt s.sequence).scanRow
+  · by_cases h2 : s.f.endPoint = 0 <;> simp [h1, h2]
+  · simp [h1]
+
+theorem checkEnd_loopCount (m : CMod) (s : St)
+    (h : ¬(s.ord = (m.seqAt s.sequence).scanOrd ∧ s.row = (m.seqAt s.sequence).scanRow ∧ s.f.endPoint = 0)) :
+    (checkEnd m s).loopCount = s.loopCount := by
+  unfold checkEnd
+  by_cases h1 : s.ord = (m.seqAt s.sequence).scanOrd ∧ s.row = (m.seqAt s.sequence).scanRow
+  · by_cases h2 : s.f.endPoint = 0
+    · exact absurd ⟨h1.1, h1.2, h2⟩ h
+    · simp [h1, h2]
+  · simp [h1]
+
+/-- `xmp_play_frame` with a reposition pending. -/
+theorem playFrame_pending (m : CMod) (s : St) (hp : s.playing = true) (hl : 0 < m.len)
+    (hend : ¬(m.marker = true ∧ m.xxoAt s.ord = 0xff)) (hne : s.ord ≠ s.pos) (hstop : s.pos ≠ -2) :
+    playFrame m s = (reposition m s).map fun s' =>
+      ⟨0, some s', if s'.frame = 0 then checkEnd m s' else s'⟩ := by
+  have h1 : ¬ (m.len ≤ 0) := by omega
+  simp [playFrame, hp, h1, hend, hne, hstop]
+
+/-- Entering order `t` through the reposition block: what the frame reports. -/
+theorem playFrame_enters (m : CMod) (s : St) (t : Int) (hp : s.playing = true)
+    (hend : ¬(m.marker = true ∧ m.xxoAt s.ord = 0xff)) (hne : s.ord ≠ s.pos) (hstop : s.pos ≠ -2)
+    (hv : Valid m t) (hpos : s.pos = t ∨ (s.pos = -1 ∧ m.entry s.sequence = t))
+    (hent : m.entry s.sequence ≤ t) :
+    playFrame m s = some ⟨0, some (entered m s t (repoEndPoint m s t)),
+                          checkEnd m (entered m s t (repoEndPoint m s t))⟩ := by
+  have hl : 0 < m.len := by have := hv.1; have := hv.2.1; omega
+  rw [playFrame_pending m s hp hl hend hne hstop, reposition_valid m s t hv hpos hent]
+  simp [entered]
+
 end Xmp.Control
